@@ -2018,7 +2018,8 @@ class UTPM(Ring, RawAlgorithmsMixIn):
             mpmath.dps = 50
 
 
-        H = numpy.zeros((N,N),dtype=y.data.dtype)
+        # (array-valued functions: the value axes follow the two Hessian axes)
+        H = numpy.zeros((N,N) + y.data.shape[2:],dtype=y.data.dtype)
         for n in range(N):
             for m in range(n):
                 a =  sum(range(n+1))
@@ -2075,10 +2076,8 @@ class UTPM(Ring, RawAlgorithmsMixIn):
     def extract_hess_vec(cls, N, x):
         """ extracts the Hessian-vector product from a UTPM instance
         """
-        Hv = numpy.zeros(N)
-        for n in range(N):
-            Hv[n] = -x.data[2, n] + x.data[2, n+N] - x.data[2, 2*N]
-        return Hv
+        # (keeps the dtype and the value axes of the function)
+        return -x.data[2, :N] + x.data[2, N:2*N] - x.data[2, 2*N]
 
     @classmethod
     def dot(cls, x, y, out = None):
